@@ -374,6 +374,7 @@ start:
 				return
 			}
 			calleeNilness := impl(pass, callee, seenFns)
+			verifCallee(call, calleeNilness)
 			if len(calleeNilness) > idx {
 				s.set(v, normalize(calleeNilness[idx], typ))
 			} else {
